@@ -531,3 +531,35 @@ func (w *World) RuleDominators() (map[string][]string, error) {
 	}
 	return out, nil
 }
+
+// NameRules: parser rules every derivation of which is exactly one token (directly or through such
+// rules): the "name" rules an error may point at.
+func (w *World) NameRules() (map[string]bool, error) {
+	g, err := w.view()
+	if err != nil {
+		return nil, err
+	}
+	out := map[string]bool{}
+	for changed := true; changed; {
+		changed = false
+		for ri, name := range g.rules {
+			if out[name] {
+				continue
+			}
+			okAll, _, _ := g.forAll(ri, 0, func(o int, s fa.Sym) int {
+				if s.Ref >= 0 && !out[g.rules[s.Ref]] {
+					return 3
+				}
+				if o >= 2 {
+					return o
+				}
+				return o + 1
+			}, func(o int) bool { return o == 1 })
+			if okAll {
+				out[name] = true
+				changed = true
+			}
+		}
+	}
+	return out, nil
+}
